@@ -1,7 +1,7 @@
 #!/bin/bash
 # tools/seedcheck.sh <id> <demo dir relative to repo root> <demo run regex> <check id>...
 # Confirms an independently written property-breaking change (patch + demo) in a scratch worktree of /repo HEAD,
-# then runs the named quick checks against it in /repo and undoes it. Results are appended to seeded/<id>/confirm.log
+# then runs the named quick checks against that worktree (VERIF_REPO). Results are appended to seeded/<id>/confirm.log
 set -u
 cd "$(dirname "$0")/.."
 . ./env.sh
@@ -23,11 +23,11 @@ git -C /repo worktree remove --force $wt 2>/dev/null; git -C /repo worktree add 
   git checkout -q -- . 
   timeout 600 go test -count=1 -run "$rx" "./$ddir" > /tmp/sc-$id.demo2 2>&1 && echo "demo without change: passes (expected)" || { echo "demo without change: FAILS (unexpected)"; tail -5 /tmp/sc-$id.demo2; }
 ) 2>&1 | tee -a "$log"
-git -C /repo worktree remove --force $wt
-git -C /repo apply "$PWD/$out/patch.diff" || { echo "does not apply to /repo" | tee -a "$log"; exit 1; }
+# the checks run against the scratch worktree with the change applied (VERIF_REPO): /repo, evidence/ and replays/ stay untouched
+git -C $wt apply "$PWD/$out/patch.diff" || { echo "does not apply" | tee -a "$log"; git -C /repo worktree remove --force $wt; exit 1; }
 for c in "$@"; do
-  o=$(timeout 3000 ./run.sh "$c" quick 2>&1); rc=$?
+  o=$(VERIF_REPO=$wt timeout 3000 ./run.sh "$c" quick 2>&1); rc=$?
   echo "check $c quick: exit=$rc, $(echo "$o" | grep -c '^VIOLATION') VIOLATION line(s)" | tee -a "$log"
-  echo "$o" | grep -A3 '^VIOLATION' | head -8 | cut -c1-400 | tee -a "$log"
+  echo "$o" | grep -A3 '^VIOLATION' | head -8 | cut -c1-400 | sed "s#$PWD/.work/alt-[0-9]*/##" | tee -a "$log"
 done
-git -C /repo checkout -- .
+git -C /repo worktree remove --force $wt
